@@ -131,9 +131,11 @@ class ControlVariates:
             fun(times, path, jump_path, payoff_underlying)
             for fun in self._underlying_functions
         ]
-        payoffs = [
-            product(value) for product, value in zip(self.products, payoff_underlyings)
-        ]
+        payoffs = []
+        for product, value in zip(self.products, payoff_underlyings):
+            # a path-dependent payoff (barrier event) is valued on the path it has just processed
+            product.payoff.process(times, path)
+            payoffs.append(product(value))
         # the following idea is that we want a 2d-array even for a 1d-array
         # ndmin=2 will create a 2d array but the transposed version of what we want
         # in the case of a 2d-array input, the line below just transposes twice the array.
@@ -176,18 +178,15 @@ class ControlVariates:
                 for fun in self._underlying_functions
             ]
         )
-        payoffs_fine = np.array(
-            [
-                product(value)
-                for product, value in zip(self.products, payoff_underlyings_from_fine)
-            ]
-        )
-        payoffs_coarse = np.array(
-            [
-                product(value)
-                for product, value in zip(self.products, payoff_underlyings_from_coarse)
-            ]
-        )
+        # a path-dependent payoff (barrier event) is valued right after it has processed its own path
+        payoffs_fine, payoffs_coarse = [], []
+        for product, value in zip(self.products, payoff_underlyings_from_fine):
+            product.payoff.process(times, path_fine)
+            payoffs_fine.append(product(value))
+        for product, value in zip(self.products, payoff_underlyings_from_coarse):
+            product.payoff.process(times, path_coarse)
+            payoffs_coarse.append(product(value))
+        payoffs_fine, payoffs_coarse = np.array(payoffs_fine), np.array(payoffs_coarse)
 
         return np.array(
             [
